@@ -52,6 +52,10 @@ var T2J = pbt.Register(t2jcheck.Prop("TestThriftToJSON"))
 
 func TestThriftToJSON(t *testing.T) { pbt.Run(t, T2J) }
 
+var Deep = pbt.Register(j2tcheck.DeepProp("TestDeepNesting"))
+
+func TestDeepNesting(t *testing.T) { pbt.Run(t, Deep) }
+
 var Req = pbt.Register(reqcheck.Prop("TestRequirednessTable"))
 
 func TestRequirednessTable(t *testing.T) { pbt.Run(t, Req) }
